@@ -126,6 +126,7 @@ impl Runner {
             "bp" => self.buffering_period(&unhex(toks.get(1).copied().unwrap_or(""))),
             "t35" => self.t35(&unhex(toks.get(1).copied().unwrap_or(""))),
             "stream" => self.stream(&toks[1..]),
+            "tbl" => crate::tables::row(toks[1], toks[2].parse().unwrap_or(0)),
             "hdr" => { let b: u8 = toks[1].parse().unwrap(); match NalHeader::new(b) { Ok(h) => format!("ok {} {} back={}", h.nal_ref_idc(), h.nal_unit_type().id(), u8::from(h)), Err(_) => "err".into() } }
             "unittype" => { let b: u8 = toks[1].parse().unwrap(); match h264_reader::nal::UnitType::for_id(b) { Ok(u) => format!("ok {}", u.id()), Err(_) => "err".into() } }
             "profile" => { let b: u8 = toks[1].parse().unwrap(); use h264_reader::nal::sps::{Profile, ProfileIdc}; format!("{}", Profile::from_profile_idc(ProfileIdc::from(b)).profile_idc()) }
